@@ -35,4 +35,10 @@ CLAIMED["C15"] = {
     "technique": "Lean 4 theorems over a hand-written model + differential correspondence check",
 }
 
+CLAIMED["C05"] = {
+    "text": "Theorems over an abstract prime-order curve (LawfulCurve: ZMod n-module generated by G, negation keeps x and flips y parity, decompression finds a point from x and parity): every produced signature has 1<=r<n, 1<=s<=n/2 (sign_range, no curve laws needed), verifies against d*G (sign_verifies), recovers exactly d*G from (z,r,s,parity) when x(kG)<n (sign_recovers_partial), the nonce is in [1,n-1] (trySign_nonce) and for digests below n equals the RFC 6979 HMAC-SHA256 nonce (nonce_rfc6979; bits2octets_differs shows why the bound is there). Tied to src/account.rs by signing boundary and random (key, digest) pairs twice in-process, comparing with the model's independent RFC 6979/secp256k1 implementation, and judging every signature by independent ECDSA verify + recovery.",
+    "note": COMMON_NOTE + " LawfulCurve for the concrete secp256k1 (group law, primality of n) is a hypothesis, not proved; sign_recovers is PARTIAL (needs x(kG) < n, probability of failure 2^-128, not exhibitable).",
+    "technique": "Lean 4 theorems (Mathlib ZMod) over a hand-written model + differential correspondence check",
+}
+
 NOT_YET = {}
